@@ -277,6 +277,35 @@ theorem eval_value_iff (e : Expr) (_h : hasAssign e = false) (hm : Spec.modInRan
   · exact quirk_val _ v
   · intro h; rw [h]; rfl
 
+/-- C03 (the error names an offending operand): whenever evaluation as the interpreter does it
+    ends in an error, that error is one of the ADMISSIBLE errors of the tree (`Spec.errSet`): the
+    propagated error of an operand that fails, a kind error naming an operand that evaluated to a
+    value of the wrong kind for its operator (attached to it — or, for the right operand of
+    and/or/in/notin, to child 0: the known finding), or the operator's own runtime error (`%` by
+    zero, invalid pattern). Which of several offending operands is reported is NOT fixed by the
+    property; the correspondence accepts any member of this set. -/
+theorem impl_error_admissible (e : Expr) (hm : Spec.modInRange G e = true) (k : ErrKind) (s : Str) (p : Option Nat)
+    (h : Impl.eval G e = .err k s p) : (k, s, p) ∈ Spec.errSet G e := by
+  rw [eval_eq_quirk_spec G e hm] at h
+  cases hs : Spec.eval G e with
+  | val v => rw [hs] at h; simp [Out.quirk] at h
+  | err k' s' p' =>
+    rw [hs] at h
+    simp only [Out.quirk, Out.err.injEq] at h
+    obtain ⟨rfl, rfl, rfl⟩ := h
+    exact (spec_err_mem G e _ _ _ hs).2
+
+/- Full statement (not proved; one induction away): `Spec.eval G e = .val v → Spec.errSet G e = []`. -/
+/-- … one level of it: an operator on operands without admissible errors whose meaning is a value has
+    no admissible error — the set does not bless errors where there should be a value -/
+theorem value_has_no_admissible_error_partial (o : BinOp) (t : Str) (l r : Expr) (v1 v2 v : Val N)
+    (h1 : Spec.eval G l = .val v1) (h2 : Spec.eval G r = .val v2) (hl : Spec.errSet G l = []) (hr : Spec.errSet G r = [])
+    (hv : Spec.binSem G o (opName l) (opName r) v1 v2 = .val v) : Spec.errSet G (.bin o t l r) = [] := by
+  simp only [Spec.errSet, hl, hr, h1, h2, List.nil_append]
+  cases o <;> cases v1 <;> cases v2 <;>
+    simp_all [Spec.binSem, Spec.arith, Spec.logic, Spec.member, Spec.compare, ownLeft, ownRight, ownBoth] <;>
+    (try (split at hv)) <;> (try (split at hv)) <;> (try split) <;> (try split) <;> simp_all
+
 def BinOp.arith : BinOp → Bool
   | .plus | .minus | .times | .div | .divint | .modint => true
   | _ => false
